@@ -113,7 +113,12 @@ def r1_segment_aligned(ctx):
         for r in rngs:
             sliced.append((s, simp_add(r[2][0])))
     for s, start in sliced:
-        ok = start is not None and start[0] == 'bin' and start[1] == 'Add' and start[3] == ('int', 1) and any(x[0] == 'call' and x[1].endswith('String::len') for x in walk(start[2]))
+        ok = start is not None and start[0] == 'bin' and start[1] == 'Add' and start[3] == ('int', 1) and any(x[0] == 'call' and x[1].endswith(('String::len', 'str::len')) for x in walk(start[2]))
+        if not ok and start == ('int', 1):
+            # `rem[1..]` where rem is what strip_prefix(module path) left over: the text after the path and one delimiter character
+            k = f.expr_operand(s.args[1], s.b, 'T')
+            ok = any(x[0] == 'index' or (x[0] == 'call' and x[1].endswith(('Index>::index', 'Index::index', 'traits::index'))) for x in walk(k)) and \
+                any(x[0] == 'call' and x[1].endswith('::strip_prefix') for x in walk(k))
         ctx.check(ok, 'name-after-delimiter', "the property name is the key text after the module path and its delimiter (slice from path.len() + 1)", s.where(), show(start) if start else None)
 
 
@@ -196,7 +201,16 @@ def r3_typed_access(ctx):
             t = next((a[2] for a in atoms if a[0] == 'bool' and a[1][0] == 'call' and a[1][1] == PR + 'RawProp::is'), None)
             r = path_ret(f, path)
             if t is False:
-                ok = r and r[0] == 'agg' and r[1].endswith('Result::Err') and 'InvalidInput' in show(r)
+                def _txt(t):
+                    out = show(t) if t else ''
+                    for x in (walk(t) if t else []):
+                        if x[0] == 'agg' and str(x[1]).startswith('closure:'):
+                            g2 = P.fns.get(x[1][len('closure:'):])
+                            for _, t2 in (ret_trees(g2) if g2 else []):
+                                out += ' ' + show(t2)
+                    return out
+                is_err = r and ((r[0] == 'agg' and r[1].endswith('Result::Err')) or (r[0] == 'call' and r[1].endswith('FromResidual>::from_residual')))
+                ok = is_err and 'InvalidInput' in _txt(r)
                 ctx.check(bool(ok), 'mismatch-is-error', 'reading a property as a different type is an InvalidInput error', f.where_path(path))
                 writes = [e for e in path_effects(f, path) if e[0] == 'w']
                 ctx.check(not writes, 'mismatch-leaves-slot', 'a failed typed access leaves the property untouched', f.where_path(path))
@@ -206,8 +220,9 @@ def r3_typed_access(ctx):
         ctx.check(ok, 'is-uses-any', 'RawProp::is compares dynamic types', g.where())
     s = ctx.anchor(PR + 'store::Props::set')
     if s:
-        ins = [c for c in s.calls() if c.name.split('::')[-1] in ('insert', 'insert_unique_unchecked')]
-        ent = [c for c in s.calls() if c.name.endswith('::or_insert') or c.name.endswith('::or_insert_with')]
+        ins = [c for c in s.calls() if c.name.split('::')[-1] in ('insert', 'insert_unique_unchecked') and 'VacantEntry' not in c.name]
+        # entry(..).or_insert*(..) and VacantEntry::insert only ever fill an empty slot
+        ent = [c for c in s.calls() if c.name.endswith('::or_insert') or c.name.endswith('::or_insert_with') or c.name.endswith('VacantEntry::insert')]
         guarded = all(any(a[0] == 'bool' and a[1][0] == 'call' and a[1][1].endswith('::contains_key') and a[2] is False for _, a in s.guard_atoms(c.b)) for c in ins)
         ctx.check((bool(ent) and not ins) or (bool(ins) and guarded), 'set-keeps-first',
                   'Props::set never replaces an existing slot: the first value (and later its type) of a property is kept when a configuration is included afterwards', s.where(),
@@ -218,7 +233,10 @@ def r3_typed_access(ctx):
     ps = [g2 for g2 in P.fn_list if g2.key == PR + 'Prop::set']
     if ps:
         clo = P.closures_of(ps[0])
-        ok = any(any(is_panic_site(c) for c in h.calls()) and any(c.name.endswith('::is_none_or') for c in h.calls()) for h in clo)
+        # the assertion's condition tests the dynamic type of the stored value (is_none_or(.. is::<T>()) or an equivalent match)
+        ok = any(any(is_panic_site(c) for c in h.calls()) and (any(c.name.endswith('::is_none_or') for c in h.calls()) or
+                                                                any(c.name.endswith('::is') and ('Any' in c.name or 'any' in c.name) for h2 in [h] + P.closures_of(h) for c in h2.calls()))
+                 for h in clo)
         ctx.check(ok, 'prop-set-type-assert', 'Prop::set refuses (panics) to change the type of a property', ps[0].where())
 
 
@@ -236,6 +254,21 @@ def r4_wildcard(ctx):
         rng = [x for x in walk(path) if x[0] == 'agg' and 'RangeFrom' in x[1]]
         via_any = any(x[0] == 'constdef' and x[1].endswith('yaml::ANY') or (x[0] == 'const' and '<any>' in str(x[1])) for x in walk(base))
         if not rng:
+            # lockstep form: `while let Some((segment, tail)) = remaining.split_first() { key.push_str(segment); remaining = tail; .. update_from(entry, tail) }`
+            pt = peel(path)
+            sf = [x for x in walk(pt) if x[0] == 'call' and x[1].endswith('::split_first')]
+            is_tail = pt[0] == 'field' and pt[2] == '1' and bool(sf)
+            pushes = [c for c in f.calls() if c.name.endswith('String::push_str') and f.dominates(c.b, s.b) and set(f.loops_containing(c.b)) == set(f.loops_containing(s.b)) and f.loops_containing(s.b)]
+            seg_ok = False
+            for c in pushes:
+                a1 = peel(f.expr_operand(c.args[1], c.b, 'T'))
+                if a1[0] == 'field' and a1[2] == '0' and any(x[0] == 'call' and x[1].endswith('::split_first') and sf and x[3] == sf[0][3] for x in walk(a1)):
+                    seg_ok = True
+            if is_tail and seg_ok and not via_any:
+                ctx.ok('a literal key consumes exactly the segments joined into it (each turn appends the segment split off the remaining path and recurses with the tail)', s.where())
+                key = [x for x in walk(base) if x[0] == 'call' and x[1].endswith('Mapping::get')]
+                ctx.check(bool(key), 'literal-lookup', 'literal keys are looked up exactly (map.get), not by prefix', s.where())
+                continue
             ctx.violation('recursion-shape', 'a recursive descent of update_from does not shorten the path', s.where()); continue
         start = simp_add(rng[0][2][0])
         if via_any:
@@ -265,7 +298,28 @@ def r4_wildcard(ctx):
     # leaf: with an empty remaining path every non-wildcard entry becomes a property
     sets = f.calls_to(PR + 'store::Props::set')
     leaf = [s for s in sets if any(a[0] == 'bool' and a[1][0] == 'call' and a[1][1].endswith('::is_empty') and a[2] is True for _, a in f.guard_atoms(s.b))]
-    if ctx.floor('leaf assignment in update_from', len(leaf), 1):
+    if not leaf:
+        P = ctx.P
+        for w in per_item_calls(P, f, PR + 'store::Props::set'):
+            if w.form != 'consumer':
+                continue
+            ga = [a for _, a in f.guard_atoms(w.anchor)]
+            if not any(a[0] == 'bool' and a[1][0] == 'call' and a[1][1].endswith('::is_empty') and a[2] is True for a in ga):
+                continue
+            # the chain filters out keys that still contain the wildcard
+            filt = False
+            for x in walk(f.expr_operand(f.term(w.anchor)['args'][0], w.anchor, 'T')):
+                if x[0] == 'call' and x[1].endswith('Iterator::filter') and len(x[2]) == 2:
+                    cl = peel(x[2][1])
+                    g = P.fns.get(cl[1][len('closure:'):]) if cl[0] == 'agg' and str(cl[1]).startswith('closure:') else None
+                    for _, t in (ret_trees(g) if g else []):
+                        a = atom_of(t, ('eq', 1))
+                        if a and a[0] == 'bool' and a[2] is False and a[1][0] == 'call' and a[1][1].endswith('::contains'):
+                            filt = True
+            ctx.check(filt, 'leaf-skips-wildcards', "entries that still contain '<any>' are not turned into properties (filtered out of the chain feeding Props::set)", w.site.where())
+            leaf = [w]
+        ctx.floor('leaf assignment in update_from', len(leaf), 1)
+    elif ctx.floor('leaf assignment in update_from', len(leaf), 1):
         atoms = [a for _, a in f.guard_atoms(leaf[0].b)]
         ok = any(a[0] == 'bool' and a[1][0] == 'call' and a[1][1].endswith('::contains') and a[2] is False for a in atoms)
         ctx.check(ok, 'leaf-skips-wildcards', "entries that still contain '<any>' are not turned into properties", leaf[0].where(), [show_atom(a) for a in atoms][:5])
